@@ -3,6 +3,7 @@
    key_range / nodes_map returned), the correspondence model = observed, the property
    predicates evaluated on the observed values, and the classifiers of the known findings. *)
 From IweV Require Export Str Text Ast Arena Pos Harness.
+From IweV Require Import ReaderTotal.
 Local Open Scope string_scope.
 Local Open Scope list_scope.
 
@@ -271,7 +272,9 @@ Definition mem (x : N) (l : list N) : bool := existsb (N.eqb x) l.
 
 Definition run (c : case) : verdict :=
   let t := c_text c in
-  let evs := c_events c in
+  (* reader.rs keeps a flag while inside a raw HTML block and ignores text events there (repair
+     36ff92b); ReaderTotal.run_h_strip: that machine = Pos.step on the stream with those events skipped *)
+  let evs := strip_html false (c_events c) in
   let vr := C13_variant in
   let ps := grid (o_rows c) in
   let model_doc := read_events (code_mode vr t) evs in
@@ -293,7 +296,11 @@ Definition run (c : case) : verdict :=
             | Ok m => forallb2 (fun line o => option_eqb Nat.eqb (node_at m line) o)
                                (seq 0 (length (o_node_at c))) (o_node_at c)
             | Panic _ => true
-            end) in
+            end) ++
+    (* 4: the event stream pulldown-cmark produced lies in the grammar on which the reader's stack
+       machine is proved total (ReaderTotal.C03_reader_total_doc); a stream outside it means the
+       grammar no longer describes the parser *)
+    flag 4 (reader_doc_ok (c_events c)) in
   (* the property on the implementation's observations; outside the quantifier: lone CR *)
   let dom := negb (lone_cr t) in
   let p1 := forallb (fun p => match observed_link (lookup_hit (o_hits c) p) with
